@@ -78,6 +78,10 @@ def gen_c06_case(rng, fw):
     elif outcome == "welcome":
         ops.append(["welcome", rng.choice([1234, 1234, 1234, 1, 0])])
         ops += populate(rng, sh, rng.choice(["empty", "each", "mixed", "mixed"]))
+        if rng.random() < 0.5:
+            # the retry idiom: callbacks / errbacks of pending requests that issue a request again when they fire
+            for _ in range(rng.randint(1, 3)):
+                ops.append(c04.gen_react_op(rng, sh))
         ending = rng.choice(["router_goodbye", "leave_then_goodbye", "leave_only", "none", "disconnect"])
         if ending == "router_goodbye":
             ops.append(["goodbye", rng.choice(["normal", 3])])
@@ -191,6 +195,9 @@ def oracle_c06(fw, cfg, ops, res):
     fired = []                     # (name) in order
     lost = False
     created = {}                   # future j -> op index of creation
+    how = {}                       # future j -> "call" | "reentrant-call" | ... (which API call created it, and whether
+                                   #             from inside a callback)
+    reg_req, dupreg = {}, set()    # register request id -> future; futures hit by the duplicate-registration-id finding
     completed_at = {}
     goodbye_out = 0
     initiated = False
@@ -203,6 +210,20 @@ def oracle_c06(fw, cfg, ops, res):
             last_router = n
         cause = n if n != "turn" else "turn(deferred-continuation)"
         raised_pe = any(e[0] == "raised" and e[1] == "ProtocolError" for e in evs)
+        reent = False
+        last_req = None
+        for e in evs:
+            if e[0] == "reenter":
+                reent = True
+            if e[0] == "sent" and e[1][0] in c04.REQUEST_MSGS:
+                last_req = e[1]
+            if e[0] == "apiret" and e[1] is not None and last_req is not None:
+                how[e[1]] = ("reentrant-" if reent else "") + last_req[0]
+                if last_req[0] == "register":
+                    reg_req[last_req[1]] = e[1]
+                last_req = None
+        if n == "registered" and raised_pe and op[1] in reg_req:
+            dupreg.add(reg_req[op[1]])        # REGISTERED for a pending register request rejected: duplicate registration id
         for e in evs:
             if e[0] == "apiret" and e[1] is not None:
                 created[e[1]] = i
@@ -271,7 +292,8 @@ def oracle_c06(fw, cfg, ops, res):
         if fw == "tx" and cfg["leave_super"] and any(e[0] == "called" and e[1][0] == "leave" for e in evs):
             for j, at in created.items():
                 if at < i and j not in completed_at:
-                    v.append(("pending/future-never-completed", f"future {j} (created at op {at}) not completed when onLeave ran at op {i}"))
+                    key = "pending/future-never-completed" if j in dupreg else f"pending/not-completed-by-onLeave/{how.get(j, '?')}"
+                    v.append((key, f"future {j} (created at op {at}) not completed when onLeave ran at op {i}"))
         if n == "lost":
             lost = True
         if n == "turn":
@@ -301,7 +323,9 @@ def oracle_c06(fw, cfg, ops, res):
             v.append(("pending/tables-not-empty-after-disconnect", f"tables {res['tables']} after transport loss"))
         for j, done in res["futures"].items():
             if not done:
-                v.append(("pending/future-never-completed", f"future {j} still pending after transport loss"))
+                key = "pending/future-never-completed" if int(j) in dupreg else \
+                    f"pending/still-pending-after-disconnect/{how.get(int(j), '?')}"
+                v.append((key, f"future {j} ({how.get(int(j), '?')}) still pending after the session and the transport are gone"))
     return v
 
 
